@@ -120,6 +120,18 @@ var specs = map[string]spec{
 		},
 		Assumptions: commonAssumptions, Plain: true, QuickStride: 1, ThoroughStride: 1, QuickDeadline: 420, ThoroughDeadline: 3000,
 	},
+	"C08": {
+		LevelText: "explicit-state search over operation histories on the real objects: operations are renders of every template x data set (succeeding and failing), renders with a message bundle, JavaScript generation under both formatters and EvalExpr; a state is the canonical deep digest (reflect+unsafe, unexported fields included) of the compiled registry, caller data, injected data, message bundle and every package-level variable of the soy packages; every history of length <=3 is replayed on a freshly compiled instance under four registry configurations; each step must leave the digest unchanged and produce the bytes it produces from the initial state",
+		LevelNote: "if no operation changes the digest the reachable state set is one state and by induction every history is covered; the digest covers everything the implementation can read, except the *log.Logger variables; trusted base: harness/digest.go",
+		Technique: "explicit-state model checking over operation histories with a canonical deep state digest (replay on fresh instances)",
+		Level:     "model_checking",
+		Rule:      "states = distinct state digests reached + histories explored (a history is the state key because live objects cannot be cloned); transitions = operations executed (counter operations); every history is non-trivial (>=1 operation compared with its initial-state output)",
+		Bounds: map[string]string{
+			"quick":    "2 bundles x 4 configurations (default, custom function/directives, one and two obligatory print directives) x all histories of length <=3 over 17-23 operations",
+			"thorough": "same (the search closes at one state per configuration)",
+		},
+		Assumptions: commonAssumptions, Plain: true, QuickStride: 1, ThoroughStride: 1, QuickDeadline: 420, ThoroughDeadline: 3000,
+	},
 	"C05": {
 		LevelText: "bounded exhaustive exploration of the real parser: every input of the stated small scopes is parsed under a controlled scheduler with a deterministic linear fuel bound (no wall clock), and small inputs under every parser/scanner interleaving up to 2 preemptions; termination, no panic, no deadlock and tree-xor-error are checked on every execution and every case is replayed on the uninstrumented build",
 		LevelNote: "assumes the bounded scopes are representative (small-scope hypothesis) and that the overlay instrumentation preserves behaviour (cross-checked case by case against the plain build)",
